@@ -48,6 +48,15 @@ CHECKS = {
              'path condition). The PYTHONHASHSEED clause is not addressed (CPython set/dict iteration across processes cannot be encoded).',
         note='Trusted: z3, SInt proxy. Bounds: operand pool of 10, arity 2..4, widths 32/8 (quick) or 1..64 (thorough). Hash-seed independence outside the claim.',
         design='5/C13', engine='E2'),
+    'C16': dict(
+        level='model_checking',
+        technique='E1 dependency queries (two valuations differing in one resource) on the IR of real get_r/get_w; symbolic execution of the real MatchExpr with symbolic constants, SMT validity of binding reproduction',
+        text='Read sets: for every free identifier and every memory cell of E1(e) not covered by e.get_r(mem_read=True) the solver must answer unsat to '
+             '"two valuations differing only there give different values" (segmented memory = address + uninterpreted segbase(selector)); get_w names the destination. '
+             'Matching: e := pattern[binding] with symbolic constants; the real MatchExpr must succeed, bind every wildcard, and substituting the result into the '
+             'pattern must be structurally equal to e for all constants (SMT); mutated non-instances (operator changed, arity changed, a pattern constant perturbed by a symbolic non-zero delta) must fail.',
+        note='Trusted: z3, SInt proxy, E1. Bounds: depth <= 2 shapes; 60 patterns x 3/9 bindings.',
+        design='5/C16', engine='E1+E2'),
 }
 
 NOT_APPLICABLE = {
